@@ -34,7 +34,7 @@ class Unit:
                  entry=None, loops=None, kind="P", tier="quick", timeout=300,
                  unwind=None, unwindset=(), flags=(), defines=(), leak=False,
                  reach=0, note="", bound="", assumed=(), solver=None, extra_src=(),
-                 nochecks=False, rec=False, objbits=10, shards=1, late_unwind=None, resplit=0, drop=(), unwind_cut=(), no_overflow=False, smt_props=None, only_props=None):
+                 nochecks=False, rec=False, objbits=10, shards=1, late_unwind=None, resplit=0, drop=(), unwind_cut=(), no_overflow=False, smt_props=None, only_props=None, runner=None):
         self.name = name
         # props: {property_id: regex over obligation names that count for it}
         self.props = props if isinstance(props, dict) else {p: ".*" for p in props}
@@ -67,6 +67,7 @@ class Unit:
         self.drop = list(drop)
         self.unwind_cut = list(unwind_cut)
         self.no_overflow = no_overflow
+        self.runner = runner        # python module under tools/ with run(u, scratch, REPO, VERIF) (static facts)
         self.only_props = only_props  # regex: decide only these obligations (quick-tier subset of a thorough unit)
         self.smt_props = smt_props   # regex: these obligations go to z3 with the FP theory, the rest to SAT
 
@@ -194,6 +195,9 @@ def run_unit(u, scratch, want_trace=True):
         "spliced_loops": 0, "note": u.note, "assumed": u.assumed, "samples": [],
     }
     t0 = time.time()
+    if u.runner:
+        import importlib
+        return importlib.import_module(u.runner).run(u, scratch, REPO, VERIF)
     d = os.path.join(scratch, u.name)
     os.makedirs(d, exist_ok=True)
     log = os.path.join(d, "log.txt")
